@@ -27,7 +27,7 @@ def _trace(drv, binpath, symf, an, sigma, renv, dump=None, tier="thorough"):
     gd = env.get("GODEBUG", "")
     env["GODEBUG"] = (gd + "," if gd else "") + "asyncpreemptoff=1"
     extra = (" -dump %d -dumpfile %s" % dump) if dump is not None else ""
-    if _SHM and "_386" not in binpath:  # (valgrind's 32-bit tools cannot write a log file beyond 2 GiB: those go through a pipe)
+    if _SHM:  # (valgrind's 32-bit tools cannot write a log file beyond 2 GiB - the core32 window list stays far below)
         # a trace file on tmpfs is ~2x cheaper than a pipe (valgrind issues one write per line)
         d = tempfile.mkdtemp(prefix="verif-c08-", dir=_SHM)
         tf = os.path.join(d, "trace")
@@ -35,7 +35,11 @@ def _trace(drv, binpath, symf, an, sigma, renv, dump=None, tier="thorough"):
             tf, binpath, sigma, tier, an, symf, extra, tf, d)
     else:
         cmd = "valgrind --tool=lackey --trace-mem=yes --log-fd=3 %s %d %s 3>&1 1>/dev/null 2>/dev/null | %s -syms %s%s" % (binpath, sigma, tier, an, symf, extra)
-    p = subprocess.run(["bash", "-c", "set -o pipefail; " + cmd], env=env, capture_output=True, text=True)
+    try:
+        p = subprocess.run(["bash", "-c", "set -o pipefail; " + cmd], env=env, capture_output=True, text=True, timeout=5400)
+    except subprocess.TimeoutExpired:
+        subprocess.run(["pkill", "-f", binpath + " %d %s" % (sigma, tier)])
+        return None, "trace of %s sigma=%d tier=%s did not finish within 90 min" % (binpath, sigma, tier)
     if p.returncode != 0:
         return None, p.stderr[-2000:]
     try:
@@ -84,10 +88,24 @@ def run(drv, pid, tier, seed, configs):
         box = {}
         th = threading.Thread(target=lambda: box.update(large=_pass(drv, pid, tier, seed, lcfg, lsig, "large", bins) if lcfg else None))
         th.start()
-        main = _pass(drv, pid, tier, seed, configs, QUICK_SIGMAS if tier == "quick" else THOROUGH_SIGMAS, tier, bins)
+        # the 32-bit platform binaries are traced on the core window list only (see cmd/c08: core32), with fewer secrets
+        c32 = [c for c in configs if "386" in c] if tier == "thorough" else []
+        if tier != "thorough" and all("386" in c for c in configs):
+            drv.log("check C08: the 32-bit platform binaries are traced in the thorough tier only (a trace takes > 5 min)")
+            return 2
+        th2 = threading.Thread(target=lambda: box.update(core32=_pass(drv, pid, tier, seed, c32, [0, 1, 4] if tier == "quick" else [0, 1, 2, 4, 16, 20], "core32", bins) if c32 else None))
+        th2.start()
+        mcfg = [c for c in configs if "386" not in c]
+        main = _pass(drv, pid, tier, seed, mcfg, QUICK_SIGMAS if tier == "quick" else THOROUGH_SIGMAS, tier, bins) if mcfg else None
         th.join()
+        th2.join()
         large = box.get("large")
-        return _finish(drv, pid, tier, seed, main, large)
+        core32 = box.get("core32")
+        if c32 and not isinstance(core32, dict):
+            return 2
+        if main is None:  # only 32-bit configurations requested
+            main, core32 = core32, None
+        return _finish(drv, pid, tier, seed, main, large, core32)
     finally:
         shutil.rmtree(scratch0, ignore_errors=True)
 
@@ -223,36 +241,41 @@ def _pass(drv, pid, tier, seed, configs, sigmas, wtier, bins):
                 samples=[dict(window=names[k], config=configs[0], **res[configs[0]][sigmas[0]][0][k]) for k in range(0, nwin, 7)], wall_s=round(time.time() - t0, 1))
 
 
-def _finish(drv, pid, tier, seed, main, large):
+def _finish(drv, pid, tier, seed, main, large, core32=None):
     if large is None:  # only 32-bit configurations were requested: no large pass
         large = dict(viols=[], notes=["large pass skipped (32-bit configurations only)"], total_eval=0, names=[], sigmas=[0], samples=[], exhaustive=True, cov_cfg={}, configs=[], wall_s=0)
     t_end = time.time()
     meta = drv.CHECKS[pid]
     if not isinstance(main, dict) or not isinstance(large, dict):
         return 2
-    viols = main["viols"] + [dict(v, tier="large") for v in large["viols"]]
+    viols = [dict(v, tier="core32") if main.get("wtier") == "core32" else v for v in main["viols"]] + [dict(v, tier="large") for v in large["viols"]]
     notes = main["notes"] + large["notes"]
+    if core32:
+        viols += [dict(v, tier="core32") for v in core32["viols"]]
+        notes += core32["notes"]
     nwin, nsig = len(main["names"]), len(main["sigmas"])
     cov = dict(
         evaluations=main["total_eval"] + large["total_eval"],
         distinct_nontrivial=nwin * (nsig - 1) + len(large["names"]) * (len(large["sigmas"]) - 1), rule=meta["rule"],
         samples=main["samples"] + large["samples"], exhaustive=main["exhaustive"] and large["exhaustive"],
         windows=main["names"], large_windows=large["names"], secrets=nsig, per_config=main["cov_cfg"], large_pass=dict(per_config=large["cov_cfg"], secrets=len(large["sigmas"]), configurations=large["configs"]),
-        notes=notes, configurations=main["configs"],
+        notes=notes, configurations=main["configs"] + (core32["configs"] if core32 else []),
+        core32_pass=(dict(windows=core32["names"], per_config=core32["cov_cfg"], secrets=len(core32["sigmas"]), configurations=core32["configs"],
+                          evaluations=core32["total_eval"], exhaustive=core32["exhaustive"], wall_s=core32["wall_s"]) if core32 else None),
         secret_alphabet="sigma 0..3 = all-0x00/0xff/0x88/0x77 bytes, 4..5 generic (SHA-512 derived); thorough adds the other nibble patterns, 0xa5/0x5a/0x0f/0xf0 and 8 more generic; lookup index x covers [-8,8] completely by sigma 16; selector bit = low bit of a secret byte")
     ev = dict(property_id=pid, tier=tier, seed=seed, level=meta["level"], coverage=cov, assumptions=meta.get("assumptions", []),
               wall_s=round(main["wall_s"] + 0.0, 2), violations=len(viols))
-    os.makedirs(os.path.join(drv.ROOT, "evidence"), exist_ok=True)
-    with open(os.path.join(drv.ROOT, "evidence", pid + ".json"), "w") as f:
+    os.makedirs(os.path.join(drv.OUT, "evidence"), exist_ok=True)
+    with open(os.path.join(drv.OUT, "evidence", pid + ".json"), "w") as f:
         json.dump(ev, f, indent=1, sort_keys=True)
     for n in notes:
         drv.log("note: " + n)
     if viols:
-        os.makedirs(os.path.join(drv.ROOT, "replays"), exist_ok=True)
+        os.makedirs(os.path.join(drv.OUT, "replays"), exist_ok=True)
         seen = set()
         for v in viols:
             h = hashlib.sha256(json.dumps(v, sort_keys=True).encode()).hexdigest()[:12]
-            path = os.path.join(drv.ROOT, "replays", "%s-%s.json" % (pid, h))
+            path = os.path.join(drv.OUT, "replays", "%s-%s.json" % (pid, h))
             json.dump(dict(dict(tier=tier), **dict(v, property=pid, seed=seed)), open(path, "w"), indent=1)
             if v["key"] in seen:
                 continue
